@@ -1005,6 +1005,10 @@ class Evaluator(object):
         if isinstance(o, Rat):
             if attr == 'days':
                 return o          # timedelta.days of a difference of date ordinals
+            if attr in ('year', 'month', 'day'):
+                k = _const_int(o)
+                if k is not None and k in self.dates:
+                    return C(self.dates[k][('year', 'month', 'day').index(attr)])
             a = _single_atom(o)
             if a is not None and a.kind == 'sym':
                 return Rat.sym('%s.%s' % (a.name, attr))
@@ -1342,6 +1346,9 @@ class Evaluator(object):
                     # ints print exactly; other constants are shown as python floats would print them
                     return Str(str(int(fr)) if fr.denominator == 1 and not getattr(self, 'const_as_float', False) else repr(float(fr)))
                 return alg.opaque('str', (argkey(a[0]),))
+            if short == 'type' and len(a) == 1 and isinstance(a[0], Rat) and _const_int(a[0]) is not None and _const_int(a[0]) in self.dates \
+                    and getattr(self, 'dates_are_typed', False):
+                return Ref(Ext('datetime.date'))
             if short == 'type' and len(a) == 1:
                 if isinstance(a[0], Obj) and a[0].cls is not None:
                     return Ref(a[0].cls)
